@@ -27,6 +27,7 @@ EXTENDS %(base)s, Json
 MCProgs == %(progs)s
 MCNames == %(names)s
 MCDev == %(dev)s
+%(traces)s
 Emit == Done => PrintT(ToJson([pid |-> pid.id, log |-> log, out |-> out, res |-> res, exc |-> exc%(extra)s]))
 %(defs)s
 ====
@@ -47,15 +48,18 @@ def workdir(tag):
     return tempfile.mkdtemp(prefix=tag + "_", dir=BUILD)
 
 
-def write_mc(wd, mod, progs, names, dev, invariants, properties, base="ZPT", emit=True, extra="", defs="", spec="Spec"):
+def write_mc(wd, mod, progs, names, dev, invariants, properties, base="ZPT", emit=True, extra="", defs="", spec="Spec",
+             traces=None):
     tprogs = [P.to_tla(p, names) for p in progs]
     with open(os.path.join(wd, mod + ".tla"), "w") as f:
         f.write(MC_TEMPLATE % dict(mod=mod, base=base, progs=lit(tprogs), names=lit(set(names)),
-                                   dev=lit(set(dev)), extra=extra, defs=defs))
+                                   dev=lit(set(dev)), extra=extra, defs=defs,
+                                   traces=("MCTraces == " + lit(traces)) if traces is not None else ""))
     invs = list(invariants) + (["Emit"] if emit else [])
     with open(os.path.join(wd, mod + ".cfg"), "w") as f:
         f.write(CFG_TEMPLATE % dict(spec=spec, invs="\n".join("INVARIANT " + i for i in invs),
-                                    props="\n".join("PROPERTY " + p for p in properties)))
+                                    props="\n".join("PROPERTY " + p for p in properties))
+                + (" \nCONSTANT Traces <- MCTraces\n" if traces is not None else ""))
 
 
 def _shard(job):
